@@ -67,6 +67,7 @@ pub fn eval(job: &Job) -> JobResult {
         "C13" => eval_c13(job),
         "C14" => eval_c14(job),
         "C16" => eval_c16(job),
+        "C17" => eval_c17(job),
         "C19" => eval_c19(job),
         "C15" => eval_c15(job),
         "C07" | "C08" | "C09" | "C10" | "C11" => eval_conf(job),
@@ -644,7 +645,8 @@ fn eval_c15(job: &Job) -> JobResult {
 
 /// One iteration as text: decision path, outcome, completion history
 pub fn iter_sig(it: &IterData) -> String {
-    format!("{} | {} | {}{}", fmt_path(&it.path), fmt_outcome(&it.results), crate::accept::fmt_history(&it.history), if it.panicked { " | PANICKED" } else { "" })
+    let notes = if it.notes.iter().any(|n| n.0 < 200) { format!(" | notes {:?}", it.notes.iter().filter(|n| n.0 < 200 && n.0 != 22).collect::<Vec<_>>()) } else { String::new() };
+    format!("{} | {} | {}{}{}", fmt_path(&it.path), fmt_outcome(&it.results), crate::accept::fmt_history(&it.history), notes, if it.panicked { " | PANICKED" } else { "" })
 }
 
 #[derive(Default)]
@@ -781,9 +783,14 @@ fn eval_c13(job: &Job) -> JobResult {
         }
         let (sb, b) = run_seq(p, &cfg);
         res.loom_iterations += b.sigs.len() as u64;
-        // the failing iteration ends before the main thread's final (thread-exit) schedule branch
-        let strip = |s: &String| s.replace(" | PANICKED", "").replace(" S- | ", " | ");
-        if sb.verdict != Verdict::User(7777) || b.sigs.len() != 1 || strip(&b.sigs[0]) != strip(&s1.sigs[first_idx]) {
+        // the failing iteration ends before the main thread's exit (lazy statics, thread-local
+        // destructors, final schedule branch): same outcome and history, its path a prefix
+        let same = |got: &String, exp: &String| -> bool {
+            let g: Vec<&str> = got.split(" | ").collect();
+            let e: Vec<&str> = exp.split(" | ").collect();
+            g.len() >= 3 && e.len() >= 3 && e[0].starts_with(g[0]) && g[1] == e[1] && g[2] == e[2]
+        };
+        if sb.verdict != Verdict::User(7777) || b.sigs.len() != 1 || !same(&b.sigs[0], &s1.sigs[first_idx]) {
             res.violations.push(viol(
                 "failure_not_reproduced",
                 format!("outcome {}", o),
@@ -1301,6 +1308,141 @@ fn eval_c06(job: &Job) -> JobResult {
         res.violations.push(viol("next_model_not_clean", v, "a later model run in the same process equals its fresh-process run".into(), first_diff(&expect.sigs, &after.sigs), json!({})));
     } else {
         res.traces_validated += after.sigs.len() as u64;
+    }
+    res
+}
+
+// ------------------------------------------------------------------------------------------
+// C17: thread_local! and lazy_static! semantics
+// ------------------------------------------------------------------------------------------
+
+/// Per-iteration oracle over the notes left by initialisers / destructors (see statics.rs)
+fn statics_oracle(p: &Program) -> Box<dyn FnMut(&IterData) -> Option<Viol>> {
+    let p = p.clone();
+    let mut hist = history_oracle(&p);
+    Box::new(move |it: &IterData| {
+        if let Some(v) = hist(it) {
+            return Some(v);
+        }
+        if !it.complete() {
+            return None;
+        }
+        let bad = |what: String| Some(viol("statics", what.clone(), "thread-local / lazy-static semantics".into(), format!("iteration {}: notes {:?}", it.index, it.notes), json!({})));
+        let nt = p.threads.len();
+        // which (thread, key id) pairs are touched
+        let kid = |flav: bool, k: usize| (k + if flav { 2 } else { 0 }) as u64;
+        for t in 0..nt {
+            let mut tls_keys: Vec<u64> = vec![];
+            for op in &p.threads[t] {
+                match op.k {
+                    K::TlsWith { k } => tls_keys.push(kid(p.objs.tls[k], k)),
+                    K::TlsNested { k, k2 } => {
+                        tls_keys.push(kid(p.objs.tls[k], k));
+                        tls_keys.push(kid(p.objs.tls[k2], k2));
+                    }
+                    _ => {}
+                }
+            }
+            for id in 0..4u64 {
+                let inits = it.notes.iter().filter(|n| n.0 == 10 && n.1 == id && n.2 == t as u64).count();
+                let drops: Vec<&(u8, u64, u64)> = it.notes.iter().filter(|n| n.0 == 11 && n.1 == id && n.2 % 100 == t as u64).collect();
+                let want = tls_keys.contains(&id) as usize;
+                if inits != want {
+                    return bad(format!("thread-local initialised {} times by a thread that {} it", inits, if want == 1 { "accesses" } else { "never touches" }));
+                }
+                if drops.len() != want {
+                    return bad(format!("thread-local value dropped {} times on its owner (initialised {} times)", drops.len(), inits));
+                }
+                // dropped after the owner's last op
+                if let Some(d) = drops.first() {
+                    let at = d.2 / 100;
+                    let last = it.history.iter().rposition(|h| h.0 as usize == t).map(|x| x as u64 + 1).unwrap_or(0);
+                    if at < last {
+                        return bad("thread-local dropped before its thread finished".to_string());
+                    }
+                }
+            }
+        }
+        // a drop note whose thread never initialised the key = dropped on the wrong thread
+        for n in it.notes.iter().filter(|n| n.0 == 11) {
+            let t = n.2 % 100;
+            if !it.notes.iter().any(|m| m.0 == 10 && m.1 == n.1 && m.2 == t) {
+                return bad("thread-local dropped on a thread that does not own it".to_string());
+            }
+        }
+        if it.notes.iter().any(|n| n.0 == 13 && n.2 != 0) {
+            return bad("thread-local value of another thread observed".to_string());
+        }
+        if it.notes.iter().any(|n| n.0 == 12 && n.2 != 1) {
+            return bad("try_with on a destroyed key did not report AccessError".to_string());
+        }
+        // lazy statics
+        let mut lazy_keys: Vec<u64> = vec![];
+        for op in p.threads.iter().flatten() {
+            if let K::LazyGet { k } = op.k {
+                lazy_keys.push(kid(p.objs.lazies[k], k));
+            }
+        }
+        for id in 0..4u64 {
+            let inits = it.notes.iter().filter(|n| n.0 == 20 && n.1 == id).count();
+            let drops = it.notes.iter().filter(|n| n.0 == 21 && n.1 == id).count();
+            let want = lazy_keys.contains(&id) as usize;
+            if inits != want {
+                return bad(format!("lazy static initialised {} times in one execution (accessed: {})", inits, want == 1));
+            }
+            if drops != inits {
+                return bad(format!("lazy static dropped {} times (initialised {})", drops, inits));
+            }
+            let addrs: std::collections::BTreeSet<u64> = it.notes.iter().filter(|n| n.0 == 22 && n.1 == id).map(|n| n.2).collect();
+            if addrs.len() > 1 {
+                return bad("threads saw different instances of a lazy static".to_string());
+            }
+        }
+        None
+    })
+}
+
+fn eval_c17(job: &Job) -> JobResult {
+    let p = &job.program;
+    let mut res = JobResult::default();
+    let sc = scm::explore(p, scm::Mode::explore(p), SC_MAX_STATES);
+    if sc.truncated {
+        res.machinery_error = Some("SC machine truncated".into());
+        return res;
+    }
+    res.states = sc.states;
+    res.transitions = sc.transitions;
+    res.ref_outcomes = sc.done.len() as u64;
+    res.nontrivial = sc.done.len() >= 2 || p.threads.len() >= 3;
+    let c = Collect { per_iter: Some(statics_oracle(p)), max_iter_viols: 16, ..Default::default() };
+    let (sum, col) = subject::run(p, &job.cfg, c);
+    res.loom_iterations = col.iters;
+    res.loom_outcomes = col.outcomes.len() as u64;
+    res.verdict = sum.verdict.short();
+    res.capped = sum.verdict == Verdict::Capped;
+    res.traces_validated = col.accepted;
+    res.sample = json!({"program": p.text(), "reference_outcomes": outs_json(sc.done.iter()), "loom_outcomes": outs_json(col.outcomes.keys()), "loom_verdict": res.verdict, "loom_iterations": col.iters});
+    if let Some(v) = col.iter_viols.iter().min_by(|a, b| (a.kind.clone(), a.detail.clone()).cmp(&(b.kind.clone(), b.detail.clone()))) {
+        res.violations.push(v.clone());
+    }
+    if res.capped {
+        return res;
+    }
+    if sum.verdict != Verdict::Ok {
+        let kind = if sum.verdict == Verdict::Race { "false_race" } else { "unexpected_verdict" };
+        res.violations.push(viol(kind, sum.verdict.short(), "Ok".into(), sum.message.lines().next().unwrap_or("").to_string(), json!({})));
+        return res;
+    }
+    // Which thread initialises a static first is only compared in the sound direction: the
+    // property does not promise that every order of first accesses is explored (a plain
+    // initialiser contains no scheduling point).
+    for o in col.outcomes.keys() {
+        if sc.done.contains(o) {
+            res.traces_validated += 1;
+        }
+        if !sc.done.contains(o) {
+            res.violations.push(viol("extra_outcome", fmt_outcome(o), "initialised once per thread / per execution".into(), "".into(), json!({})));
+        }
     }
     res
 }
